@@ -14,9 +14,11 @@
 from __future__ import annotations
 
 import ast
+import re
 
 from ..cfg import ENTRY, EXIT
 from ..effects import USER_CALL
+from ..flow import Defs
 from ..loader import AnalysisError, FuncInfo, dotted, norm, walk_no_nested
 from ..report import Ctx
 from ..selftest import Mutant
@@ -61,9 +63,8 @@ def _handler_types(h: ast.ExceptHandler) -> set[str]:
     return {dotted(h.type)}
 
 
-def check(ctx: Ctx) -> None:  # noqa: C901, PLR0912, PLR0915
+def rule_wrapped(ctx: Ctx) -> None:  # noqa: C901
     P, cg = ctx.prog, ctx.cg
-    # ------------------------------------------------------------ 1 wrapped
     sites = [s for s in cg.call_sites_of(CALL) if s.kind == "call" and s.caller.module.name in EXEC_MODULES]
     ctx.floor("1-wrapped", len(sites), 3)
     for s in sites:
@@ -83,16 +84,19 @@ def check(ctx: Ctx) -> None:  # noqa: C901, PLR0912, PLR0915
                 calls = [c for st in h.body for c in ast.walk(st) if isinstance(c, ast.Call) and dotted(c.func).rsplit(".", 1)[-1] == "handle_error"]
                 why = "the handler does not call handle_error"
                 if calls and h.name:
-                    args = [norm(a) for a in calls[0].args]
-                    if len(args) >= 3 and args[0] == h.name and args[1] == callee_name and args[2] == kw_name:
-                        first = h.body[0]
-                        ok = isinstance(first, ast.Expr) and calls[0] is first.value
-                        why = "handle_error(e, func, kwargs) with the called function and the splatted kwargs" if ok else "handle_error is not the first thing the handler does"
+                    dd = Defs(fn)
+                    args = [norm(dd.resolve(a)) for a in calls[0].args]
+                    if len(args) >= 3 and args[0] == h.name and args[1] == norm(dd.resolve(s.node.func)) and args[2] == (norm(dd.resolve(star[0])) if star else None):
+                        ok = True
+                        why = "handle_error(e, func, kwargs) with the called function and the splatted kwargs"
                     else:
                         why = f"handle_error{tuple(args)} is not (caught exception, `{callee_name}`, `{kw_name}`): the error would be attributed to other arguments"
         ctx.add("1-wrapped", fn, s.node, ok, why, key=f"user-call {callee_name}(**{kw_name})")
 
-    # ------------------------------------------------------------ 2 noreturn
+
+
+def rule_noreturn(ctx: Ctx) -> None:
+    P = ctx.prog
     he = P.func("pipefunc._utils.handle_error")
     cfg = ctx.cfg(he)
     # analysed without treating handle_error itself as noreturn
@@ -103,18 +107,23 @@ def check(ctx: Ctx) -> None:  # noqa: C901, PLR0912, PLR0915
     ctx.add("2-noreturn", he, he.node, ok, "every path through handle_error raises" if ok else "handle_error can return normally: the caller falls through with no result", key="no-normal-exit")
     raises = [r for r in walk_no_nested(he.node) if isinstance(r, ast.Raise)]
     exc_param = he.param_names()[0]
-    good = True
+    dh = Defs(he)
+    good, other = True, []
     for r in raises:
         if r.exc is None:
             continue
-        t = norm(r.exc)
-        good &= t.startswith(f"type({exc_param})(") and r.cause is not None and norm(r.cause) == exc_param
-    ctx.add("2-noreturn", he, raises[0] if raises else he.node, bool(raises) and good, "re-raises the same exception, or the same type chained from it" if raises and good else "handle_error raises a different exception type", key="same-type")
+        t = norm(dh.resolve(r.exc))
+        same = t.startswith((f"type({exc_param})(", f"{exc_param}.__class__(")) or t == exc_param
+        good &= same
+        if not same and re.match(r"[A-Z]\w*(Error|Exception)\(", t):
+            other.append(t)
+    ctx.tri("2-noreturn", he, raises[0] if raises else he.node, bool(raises) and good, bool(other), "re-raises the same exception, or the same type chained from it",
+            f"handle_error raises `{other[0][:50] if other else ''}`: callers catching the original exception type no longer see it", "raised exception not recognised", key="same-type")
     note = [c for c in ast.walk(he.node) if isinstance(c, ast.Call) and isinstance(c.func, ast.Attribute) and c.func.attr == "add_note"]
-    ok = bool(note) and norm(note[0].func.value) == exc_param  # type: ignore[union-attr]
-    bare = [r for r in raises if r.exc is None]
-    ok = ok and bool(bare) and note[0].lineno < bare[-1].lineno
-    ctx.add("2-noreturn", he, note[0] if note else he.node, ok, "the note is attached to the caught exception before the bare raise" if ok else "the failing call is no longer noted on the exception before re-raising", key="add-note")
+    bare = [r for r in raises if r.exc is None or norm(dh.resolve(r.exc)) == exc_param]
+    ok = bool(note) and norm(dh.resolve(note[0].func.value)) == exc_param  # type: ignore[union-attr]
+    ctx.tri("2-noreturn", he, note[0] if note else he.node, ok and bool(bare), bool(bare) and not note, "the note is attached to the caught exception",
+            "the exception is re-raised without a note naming the failing call", "note / re-raise not recognised", key="add-note")
     if note and bare:
         nn = {cfg.node_containing(note[0])} - {None}
         rn = cfg.node(bare[-1])
@@ -122,10 +131,14 @@ def check(ctx: Ctx) -> None:  # noqa: C901, PLR0912, PLR0915
         ctx.add("2-noreturn", he, note[0], ok, "the note is added on every path to the re-raise" if ok else
                 "the note is added only conditionally: some failing invocations surface without (or with another invocation's) function name and kwargs", key="note-unconditional")
     msg_src = " ".join(norm(s) for s in walk_no_nested(he.node) if isinstance(s, ast.Assign))
-    ok = "func.__name__" in msg_src and "kwargs" in msg_src and "format_function_call" in msg_src
-    ctx.add("2-noreturn", he, he.node, ok, "message names the function and its keyword arguments" if ok else "the message no longer contains the function name and the kwargs", key="message")
+    unused = [p_ for p_ in he.param_names()[1:3] if not any(isinstance(x, ast.Name) and x.id == p_ and isinstance(x.ctx, ast.Load) for x in ast.walk(he.node))]
+    ctx.tri("2-noreturn", he, he.node, "__name__" in msg_src and not unused, bool(unused), "message names the function and its keyword arguments",
+            f"handle_error never reads its parameter(s) {unused}: the note cannot name the failing function / its arguments", "message construction not recognised", key="message")
 
-    # ------------------------------------------------------------ 3 no-swallow
+
+
+def rule_no_swallow(ctx: Ctx) -> None:  # noqa: C901
+    P, cg = ctx.prog, ctx.cg
     eff = ctx.effects
     n3 = 0
     for fn in P.functions.values():
@@ -174,10 +187,14 @@ def check(ctx: Ctx) -> None:  # noqa: C901, PLR0912, PLR0915
         ctx.add("3-no-swallow", f, lp, not bad and not inside_try, "generation loop has no handler / continue: a failure ends the run before the next generation" if not bad and not inside_try else
                 "the generation loop can continue after a failed generation", key="generation-loop")
     res = P.func("pipefunc.map._run._result")
-    ok = not any(isinstance(x, ast.Try) for x in ast.walk(res.node)) and "x.result()" in norm(res.node)
-    ctx.add("3-no-swallow", res, res.node, ok, "Future.result() is called unguarded (re-raises in the parent)" if ok else "_result guards Future.result(): worker exceptions can be lost", key="future-result")
+    guarded = [t for t in ast.walk(res.node) if isinstance(t, ast.Try) and any(_handler_types(h) & BROAD for h in t.handlers) and any(isinstance(c, ast.Call) and isinstance(c.func, ast.Attribute) and c.func.attr == "result" for st in t.body for c in ast.walk(st))
+               and not all(any(isinstance(x, ast.Raise) for x in ast.walk(h)) for h in t.handlers)]
+    ctx.tri("3-no-swallow", res, res.node, ".result()" in norm(res.node) and not guarded, bool(guarded), "Future.result() is called unguarded (re-raises in the parent)", "_result swallows exceptions of Future.result(): worker failures are lost", key="future-result")
 
-    # ------------------------------------------------------------ 4 snapshot
+
+
+def rule_snapshot(ctx: Ctx) -> None:
+    P, eff = ctx.prog, ctx.effects
     call = P.func(CALL)
     user = [n for e, n in eff.direct.get(call.qualname, []) if e == USER_CALL]
     if not user:
@@ -188,37 +205,45 @@ def check(ctx: Ctx) -> None:  # noqa: C901, PLR0912, PLR0915
     ok, why = False, "self.func(...) is not inside a try"
     if tr is not None and tr.handlers:
         h = tr.handlers[0]
+        dc = Defs(call)
         snaps = [s for s in h.body if isinstance(s, ast.Assign) and norm(s.targets[0]) == "self.error_snapshot"]
         why = "the handler does not record self.error_snapshot"
-        if snaps and isinstance(snaps[0].value, ast.Call):
-            a = [norm(x) for x in snaps[0].value.args]
+        snap_val = dc.resolve(snaps[0].value) if snaps else None
+        if snaps and isinstance(snap_val, ast.Call):
+            a = [norm(x) for x in snap_val.args]
             star_a = [norm(x.value) for x in uc.args if isinstance(x, ast.Starred)]
             star_k = [norm(k.value) for k in uc.keywords if k.arg is None]
             want = [norm(uc.func), h.name, star_a[0] if star_a else None, star_k[0] if star_k else None]
-            ok = a == want and dotted(snaps[0].value.func) == "ErrorSnapshot"
+            ok = a == want and dotted(snap_val.func) == "ErrorSnapshot"
             why = "ErrorSnapshot(self.func, e, args, kwargs) holds exactly what the failing call received" if ok else f"ErrorSnapshot{tuple(a)} does not hold the callee/arguments of the failing call {tuple(want)}"
             last = h.body[-1]
-            if ok and not (isinstance(last, ast.Raise) and last.exc is None):
-                ok, why = False, "the handler in PipeFunc.__call__ does not end with a bare `raise`"
+            if ok and not (isinstance(last, ast.Raise) and (last.exc is None or norm(last.exc) == h.name)):
+                ok, why = False, "the handler in PipeFunc.__call__ does not end with a re-raise of the caught exception"
             if ok and not any(_handler_types(h) & BROAD):
                 ok, why = False, "the handler in PipeFunc.__call__ does not catch Exception"
     ctx.add("4-snapshot", call, uc, ok, why, key="capture")
     # nothing rebinds args / kwargs between the call and the snapshot
     es = P.cls("pipefunc._pipefunc.ErrorSnapshot")
     rep = es.methods["reproduce"]
-    ok = norm(rep.node.body[-1]) == "return self.function(*self.args, **self.kwargs)"
-    ctx.add("4-snapshot", rep, rep.node, ok, "reproduce() replays the stored function on the stored arguments" if ok else "reproduce() no longer calls function(*args, **kwargs)", key="reproduce")
+    dr = Defs(rep)
+    rets = [norm(dr.resolve(r.value)) for r in walk_no_nested(rep.node) if isinstance(r, ast.Return) and r.value is not None]
+    ctx.tri("4-snapshot", rep, rep.node, rets == ["self.function(*self.args, **self.kwargs)"], bool(rets) and "self.function(" in rets[-1] and rets != ["self.function(*self.args, **self.kwargs)"],
+            "reproduce() replays the stored function on the stored arguments", f"reproduce() calls `{rets[-1][:60] if rets else ''}`, not function(*args, **kwargs) with the stored arguments", "reproduce() not recognised", key="reproduce")
     flds = list(es.fields)
     ok = flds[:4] == ["function", "exception", "args", "kwargs"]
     ctx.add("4-snapshot", es.qualname, es.loc, ok, "positional fields are (function, exception, args, kwargs)" if ok else f"ErrorSnapshot field order changed to {flds[:4]}: the capture site passes them positionally", key="field-order")
     sv, ld = es.methods["save_to_file"], es.methods["load_from_file"]
-    ok = "cloudpickle.dump(self, f)" in norm(sv.node) and "'wb'" in norm(sv.node) and "return cloudpickle.load(f)" in norm(ld.node) and "'rb'" in norm(ld.node)
-    ctx.add("4-snapshot", sv, sv.node, ok, "save/load are a cloudpickle dump/load pair on the snapshot itself" if ok else "save_to_file / load_from_file are no longer a matching cloudpickle pair", key="save-load")
+    wr = {dotted(c.func).split(".")[0] for c in ast.walk(sv.node) if isinstance(c, ast.Call) and dotted(c.func).endswith((".dump", ".dumps")) and "." in dotted(c.func)}
+    rd = {dotted(c.func).split(".")[0] for c in ast.walk(ld.node) if isinstance(c, ast.Call) and dotted(c.func).endswith((".load", ".loads")) and "." in dotted(c.func)}
+    ctx.tri("4-snapshot", sv, sv.node, bool(wr) and wr == rd, bool(wr) and bool(rd) and wr != rd, "save/load are a matching dump/load pair", f"save_to_file writes with {sorted(wr)} but load_from_file reads with {sorted(rd)}", "save/load not recognised", key="save-load")
     pe = P.func("pipefunc._pipeline._base.Pipeline.error_snapshot")
-    ok = "for f in self.functions" in norm(pe.node) and "f.error_snapshot" in norm(pe.node)
-    ctx.add("4-snapshot", pe, pe.node, ok, "Pipeline.error_snapshot returns a function's snapshot" if ok else "Pipeline.error_snapshot no longer reads the functions' snapshots", key="pipeline-snapshot")
+    ctx.tri("4-snapshot", pe, pe.node, "self.functions" in norm(pe.node) and ".error_snapshot" in norm(pe.node), ".error_snapshot" not in norm(pe.node), "Pipeline.error_snapshot returns a function's snapshot",
+            "Pipeline.error_snapshot no longer reads the functions' snapshots", key="pipeline-snapshot")
 
-    # ------------------------------------------------------------ 5 pool
+
+
+def rule_pool(ctx: Ctx) -> None:
+    P = ctx.prog
     me = P.func("pipefunc.map._run._maybe_executor")
     withs = [w for w in walk_no_nested(me.node) if isinstance(w, ast.With) and any("ProcessPoolExecutor" in norm(i.context_expr) for i in w.items)]
     ok = bool(withs) and any(isinstance(y, ast.Yield) for y in ast.walk(withs[0]))
@@ -231,6 +256,11 @@ def check(ctx: Ctx) -> None:  # noqa: C901, PLR0912, PLR0915
         lp = [x for x in walk_no_nested(f.node) if isinstance(x, ast.For) and "topological_generations" in norm(x.iter)]
         ok = bool(w) and bool(lp) and any(x is lp[0] for x in ast.walk(w[0]))
         ctx.add("5-pool", f, w[0] if w else f.node, ok, "the generation loop runs inside `with _maybe_executor(...)`" if ok else "the generation loop is outside the executor context manager", key="loop-in-with")
+
+
+def check(ctx: Ctx) -> None:
+    for rule in (rule_wrapped, rule_noreturn, rule_no_swallow, rule_snapshot, rule_pool):
+        ctx.run(rule)
 
 
 R, B, U, PF = "pipefunc/map/_run.py", "pipefunc/_pipeline/_base.py", "pipefunc/_utils.py", "pipefunc/_pipefunc.py"
